@@ -101,6 +101,8 @@ def make_handler(run, ix, mask):
     ns = {'__events__': {e: e for e in evs}}
     for e in evs:
         ns[e] = _make_cb(e)
+    if (mask + ix) % 3 == 0:
+        ns['__bool__'] = lambda self: False      # a falsy handler is a handler all the same
     h = type('L%d' % ix, (), ns)()
     h._run = run
     h.ix = ix
